@@ -6,6 +6,9 @@ import (
 	sdk "github.com/cosmos/cosmos-sdk/types"
 	paramtypes "github.com/cosmos/cosmos-sdk/x/params/types"
 
+	"github.com/ethereum/go-ethereum/common"
+
+	bsctypes "github.com/teleport-network/teleport/x/xibc/clients/light-clients/bsc/types"
 	ethtypes "github.com/teleport-network/teleport/x/xibc/clients/light-clients/eth/types"
 	tmtypes "github.com/teleport-network/teleport/x/xibc/clients/light-clients/tendermint/types"
 	tsstypes "github.com/teleport-network/teleport/x/xibc/clients/tss-client/types"
@@ -43,6 +46,7 @@ func VerifC13ClientGenesis() {
 	rt.RegisterInterfaces(tsstypes.RegisterInterfaces)
 	rt.RegisterInterfaces(tmtypes.RegisterInterfaces)
 	rt.RegisterInterfaces(ethtypes.RegisterInterfaces)
+	rt.RegisterInterfaces(bsctypes.RegisterInterfaces)
 	k := genesisKeeper()
 	src := rt.EmptyCtx()
 	chain := "chain-a"
@@ -51,7 +55,11 @@ func VerifC13ClientGenesis() {
 	relayer := rt.Str("relayer.address")
 	k.RegisterRelayers(src, relayer, []string{chain}, []string{rt.Str("relayer.counterparty")})
 
-	kind := rt.IntRange("clientType", 0, 2)
+	kind := rt.IntRange("clientType", 0, 3)
+	var ethHash common.Hash
+	var ethIndexed, bscSigner []byte
+	var bscSignerHeight types.Height
+	var bscPending [][]byte
 	var cs exported.ClientState
 	var cons exported.ConsensusState
 	h, slash := anyHeight("consensus")
@@ -66,8 +74,23 @@ func VerifC13ClientGenesis() {
 	case 1: // Ethereum
 		cs = &ethtypes.ClientState{Header: ethtypes.Header{Height: h, GasLimit: 100, GasUsed: 1, Difficulty: []byte{1}}, ChainId: 1}
 		cons = &ethtypes.ConsensusState{Timestamp: rt.U64("cons.time"), Height: h, Root: rt.Bytes("cons.root")}
+		// the metadata an update writes: the header index entry and the main-branch root entry that points to it
+		ethHash = common.BytesToHash(rt.BytesN("eth.headerHash", 32))
+		ethIndexed = rt.Bytes("eth.indexedHeader")
+		rt.Assume(len(ethIndexed) > 0)
+		store.Set(ethtypes.EthHeaderIndexKey(ethHash, h.RevisionHeight), ethIndexed)
+		ethtypes.SetEthConsensusRoot(store, h.RevisionHeight, common.BytesToHash(cons.GetRoot()), ethHash)
 	case 2: // TSS: no consensus states
 		cs = &tsstypes.ClientState{TssAddress: rt.Str("tssAddress")}
+	case 3: // BSC, with one recorded recent signer and the pending validator set
+		cs = &bsctypes.ClientState{Header: bsctypes.Header{Height: h, GasLimit: 100, GasUsed: 1, Difficulty: []byte{2}, Extra: rt.BytesN("bsc.extra", 97), Nonce: rt.BytesN("bsc.nonce", 8)},
+			ChainId: 56, Epoch: 200, BlockInteval: 3, Validators: [][]byte{rt.BytesN("bsc.validator", 20)}, TrustingPeriod: 1000}
+		cons = &bsctypes.ConsensusState{Timestamp: rt.U64("cons.time"), Height: h, Root: rt.Bytes("cons.root")}
+		bscSignerHeight = types.Height{RevisionNumber: h.RevisionNumber, RevisionHeight: rt.U64("bsc.signerHeight")}
+		bscSigner = rt.BytesN("bsc.signer", 20)
+		bsctypes.SetSigner(store, bsctypes.Signer{Height: bscSignerHeight, Validator: bscSigner})
+		bscPending = [][]byte{rt.BytesN("bsc.pending", 20)}
+		bsctypes.SetPendingValidators(store, rt.Codec(), bscPending)
 	}
 	// the stored state is a reachable one: it passed the validation every creation path applies
 	rt.Assume(cs.Validate() == nil)
@@ -107,6 +130,18 @@ func VerifC13ClientGenesis() {
 		p2, ok2 := tmtypes.GetProcessedTime(dstStore, h)
 		rt.Assert("G2-processed-time-preserved", ok1 && ok2 && p1 == p2)
 		rt.Assert("G2-iteration-key-preserved", tmtypes.GetIterationKey(dstStore, h) != nil)
+	}
+	if kind == 1 {
+		dstStore := k.ClientStore(dst, chain)
+		rt.Assert("G2-eth-header-index-preserved", rt.BytesEq(dstStore.Get(ethtypes.EthHeaderIndexKey(ethHash, h.RevisionHeight)), ethIndexed))
+		rt.Assert("G2-eth-main-root-entry-preserved", rt.BytesEq(ethtypes.GetHeaderIndexKeyByEthConsensusRoot(dstStore, common.BytesToHash(cons.GetRoot()), h.RevisionHeight), ethtypes.EthHeaderIndexKey(ethHash, h.RevisionHeight)))
+	}
+	if kind == 3 {
+		dstStore := k.ClientStore(dst, chain)
+		signers, err := bsctypes.GetRecentSigners(dstStore)
+		rt.Assert("G2-bsc-recent-signer-preserved", err == nil && len(signers) == 1 && signers[0].Height == bscSignerHeight && rt.BytesEq(signers[0].Validator, bscSigner))
+		pv := bsctypes.GetPendingValidators(rt.Codec(), dstStore).Validators
+		rt.Assert("G2-bsc-pending-validators-preserved", len(pv) == 1 && rt.BytesEq(pv[0], bscPending[0]))
 	}
 	// exporting the imported state gives the same genesis again
 	gs2 := ExportGenesis(dst, k)
